@@ -257,6 +257,10 @@ class Component(Spatialable):
     name: str
     """ The name of this `Component`. """
 
+    _costs_calculated: frozenset = PrivateAttr(default=frozenset())
+    """ Which of "area", "energy", "throughput" and "leak" have already been calculated
+    (and scaled) for this `Component` by ``Spec.calculate_component_costs``. """
+
     component_class: Optional[str] = None
     """ The class of this `Component`. Used if an energy or area model needs to be
     called for this `Component`. """
